@@ -423,6 +423,20 @@ def gen_direrr_cases(rng, start, transports=('fusedev', 'virtio')):
                                        transport=transports[k % len(transports)])); k += 1
     return cases
 
+def gen_errkind_cases(rng, start, transports=('fusedev', 'virtio')):
+    """Deterministic block: every io::ErrorKind code the harness can script (0..9, errors without an OS code) x a few
+    opcodes with different reply paths (plain, attr, entry, read with its split writer, readdir), on each transport:
+    the errno sent must be the one that stands for the kind (Spec/Replies.v kind_errno)."""
+    cases = []
+    k = 0
+    for kind in range(10):
+        for op in (1, 3, 34, 15, 28, 35):
+            q = gen_wf(rng, op, 'err')
+            q['fs'] = ('err', 'kind', kind)
+            cases.append(make_case(rng, start + len(cases), q['bytes'], q['fs'], q, cap=1 << 17, remap=(0, 0), minor=33,
+                                   transport=transports[k % len(transports)])); k += 1
+    return cases
+
 def gen_badname_cases(rng, start, transports=('fusedev', 'virtio')):
     """Deterministic block: every opcode that carries NUL-terminated strings x every way the strings can be wrong
     (no NUL at all, request ends right after the fixed part, second string unterminated, empty strings, a lone NUL,
